@@ -86,9 +86,13 @@ def r2_verdict(ctx):
     v = ctx.body(AP + "validate_tx_scripts", r)
     oks = [bb for bb, e in q.result_blocks(v)["Ok"]]
     cache_v = {e: 0 for bi, e in q.call_exprs(v, "HashSet::contains", "contains")}
-    CH = "$4.coin_data.covhash"
-    g = [(bi, e) for bi, e in q.call_exprs(v, "HashMap::get") if sig(e) == "HashMap::get($6, %s)" % CH]
-    r.check(len(g) == 1, "script/lookup", "script looked up by the coin's covenant hash", "script lookups: %s" % [sig(e) for bi, e in q.call_exprs(v, "HashMap::get")])
+    # in the caller's terms (arguments of the single call site substituted for the parameters): scripts[<this input's coin>.covhash]
+    cb_ = ctx.body(AP + "check_tx_validity", r)
+    sites_ = q.call_exprs(cb_, "validate_tx_scripts")
+    pmap = {i + 1: q.novers(a) for i, a in enumerate(sites_[0][1][2])} if len(sites_) == 1 else {}
+    WANT_GET = "HashMap::get(Transaction::covenants_as_map($2), %s.coin_data.covhash)" % CDATA
+    g = [(bi, e) for bi, e in q.call_exprs(v, "HashMap::get") if sig(q.subst_simplify(q.novers(e), pmap)) == WANT_GET]
+    r.check(len(g) == 1, "script/lookup", "script looked up by the coin's covenant hash", "script lookups: %s" % [sig(q.subst_simplify(q.novers(e), pmap)) for bi, e in q.call_exprs(v, "HashMap::get")])
     for bi, e in g:
         t = dict(cache_v)
         t[e] = V(0)
@@ -98,7 +102,7 @@ def r2_verdict(ctx):
     fb = q.call_exprs(v, "Covenant::from_bytes")
     r.check(len(fb) == 1, "decode/call", "the script is decoded", "%d decodes" % len(fb))
     for bi, e in fb:
-        r.check("HashMap::get($6, %s)" % CH in sig(e), "decode/src", "decodes the looked-up bytes", "decodes %s" % sig(e)[:120], v.where(bi))
+        r.check(WANT_GET in sig(q.subst_simplify(q.novers(e), pmap)), "decode/src", "decodes the looked-up bytes", "decodes %s" % sig(e)[:120], v.where(bi))
         t = dict(cache_v)
         t[e] = V(1)
         f = force(v, t)
@@ -125,36 +129,51 @@ def r2_verdict(ctx):
     r.check(bool(q.err_blocks(v, "ViolatesScript")), "verdict/err-variant", "Err(ViolatesScript)", "no Err(ViolatesScript)")
     ib = ctx.body("melvm::value::Value::into_bool", r)
     # into_bool: Int(0) is false
-    rr = q.ret_assignments(ib)
-    sigs = sorted(sig(x[2]) for x in rr)
-    r.check(any("Ne" in s_ or "PartialEq::ne" in s_ for s_ in sigs) and "1" in sigs, "into_bool", "into_bool: Int(v) ↦ v != 0, others true", "into_bool returns %s" % sigs)
+    # semantic, not textual: the only comparison is `Int payload == 0` (either polarity); with it true the result is false, with it false the result is true
+    isz = lambda c: c.startswith("Eq(") and " as Int).0" in c and ("(0, " in c or ", 0)" in c or "ZERO" in c)
+    eqs = [a for a in q.pick_atoms(ib, isz) if isz(a[1])]
+    from rules.engine.sccp import C as _C
+    okb = len(eqs) == 1
+    if okb:
+        v1, _ = q.ret_value_under(ib, {eqs[0][0]: 1} if eqs[0][0][0] != "not" else {eqs[0][0][1]: 0})
+        v0, _ = q.ret_value_under(ib, {eqs[0][0]: 0} if eqs[0][0][0] != "not" else {eqs[0][0][1]: 1})
+        okb = v0 == _C(1) and v1 != _C(1)      # (the non-Int path joins in: with the payload zero the result is no longer constantly true)
+    r.check(okb, "into_bool", "into_bool: Int(0) ↦ false, everything else ↦ true", "into_bool is not `Int(v) ↦ v != 0, others true` (zero tests: %s)" % [a[1] for a in eqs])
 
 
 def r3_environment(ctx):
     r = ctx.rule("R3", "CovenantEnv{parent_coinid: this input, parent_cdh: its coin data, spender_index: its position, last_header: history[height−1]}; execute(tx = the spender)")
     v = ctx.body(AP + "validate_tx_scripts", r)
+    b = ctx.body(AP + "check_tx_validity", r)
+    # the environment is read in the caller's terms: the arguments of the (single) call site are substituted for validate_tx_scripts' parameters, so
+    # that neither their order nor their bundling into a struct matters
+    sites = q.call_exprs(b, "validate_tx_scripts")
+    r.check(len(sites) == 1, "callsite", "one call of validate_tx_scripts per input", "%d call sites" % len(sites))
+    pmap = {i + 1: q.novers(a) for i, a in enumerate(sites[0][1][2])} if sites else {}
+    LH = "Option::unwrap_or_else(SmtMapping::get($1.history, core::num::<impl u64>::saturating_sub($1.height.0, 1)), closure[this=$1])"
     for bi, e in q.call_exprs(v, "Covenant::execute"):
         where = v.where(bi)
-        r.check(sig(e[2][1]) == "$3", "execute/tx", "executed against the spending tx", "executed against %s" % sig(e[2][1]), where)
+        txa = q.subst_simplify(q.novers(e[2][1]), pmap)
+        r.check(sig(txa) == "$2", "execute/tx", "executed against the spending tx", "executed against %s" % sig(txa), where)
         env = e[2][2]
         ok = env[0] == "agg" and env[2] == "Some" and dict(env[3])["0"][0] == "agg"
         r.check(ok, "env/some", "an environment is supplied", "environment = %s" % sig(env)[:100], where)
         if not ok:
             continue
-        f = dict(dict(env[3])["0"][3])
-        q.check_table(r, "env", f, {"parent_coinid": "$2", "parent_cdh": "$4", "last_header": "$5", "spender_index": {"($1 as u8)", "$1"}}, where)
+        f = {k: q.subst_simplify(q.novers(x), pmap) for k, x in dict(dict(env[3])["0"][3]).items()}
+        q.check_table(r, "env", f, {"parent_coinid": COIN, "parent_cdh": CDATA, "last_header": LH, "spender_index": {"(%s as u8)" % IDX, IDX}}, where)
         si = f.get("spender_index")
         if si is not None and q.is_lossy_cast(si):
             r.violation("env/spender-index-lossy", "spender_index = %s: positions ≥ 256 wrap around (inputs are not bounded to 256)" % sig(si), where)
-    b = ctx.body(AP + "check_tx_validity", r)
-    for bi, e in q.call_exprs(b, "validate_tx_scripts"):
+    for bi, e in sites:
         where = b.where(bi)
-        got = [sig(q.novers(a)) for a in e[2]]
-        LH = "Option::unwrap_or_else(SmtMapping::get($1.history, core::num::<impl u64>::saturating_sub($1.height.0, 1)), closure[this=$1])"
-        want = [IDX, COIN, "$2", CDATA, LH, "Transaction::covenants_as_map($2)", "good_scripts"]
-        names = ["spend_idx", "coin_id", "tx", "coin_data", "last_header", "scripts", "good_scripts"]
-        for n, g_, w in zip(names, got, want):
-            r.check(g_ == w, "callsite/" + n, "%s = %s" % (n, w[:80]), "%s = %s, expected %s" % (n, g_[:160], w[:120]), where)
+        flat = []
+        for a in e[2]:
+            a = q.novers(a)
+            flat.extend([x for n_, x in a[3]] if a[0] == "agg" and not a[1].startswith("std::") else [a])
+        got = {sig(x) for x in flat}
+        for n, w in (("scripts", "Transaction::covenants_as_map($2)"), ("good_scripts", "good_scripts"), ("tx", "$2")):
+            r.check(w in got, "callsite/" + n, "%s = %s" % (n, w[:80]), "no argument of validate_tx_scripts is %s (arguments: %s)" % (w, sorted(got)), where)
     cl = [c for c in ctx.prog.closures_of(b)]
     fb = [sig(x[2]) for c in cl for x in q.ret_assignments(c)]
     r.check("SealedState::header(UnsealedState::seal(^this, Option::None{}))" in fb, "last-header/fallback", "height-0 fallback = this.clone().seal(None).header()", "fallback closures return %s" % fb)
